@@ -208,7 +208,7 @@ def _do_inline(fj, b, i, e, call, hj):
     def fresh_copy(n):
         if isinstance(n, list):
             return [fresh_copy(v) for v in n]
-        if not isinstance(n, dict):
+        if not isinstance(n, dict) or "k" not in n:
             return n
         out = {k: fresh_copy(v) if k in ("a", "init", "cond", "callee", "decls") else v for k, v in n.items()}
         if "n" in out:
@@ -243,7 +243,7 @@ def _do_inline(fj, b, i, e, call, hj):
         for k, v in n.items():
             if k == "ref" and isinstance(v, dict) and v.get("id") in refmap:
                 out[k] = refmap[v["id"]]
-            elif k == "n":
+            elif k == "n" and "k" in n:
                 out[k] = _fresh_n()
             elif k in ("a", "init", "cond", "callee", "decls", "elems", "term"):
                 out[k] = ren(v)
